@@ -635,7 +635,11 @@ structure St where
   nSteps : Nat := 0
   someAttr : Int := 0
   lastAction : Int := -1
-  wrapped : Bool := false      -- inside a `PassThrough` wrapper
+  /-- number of `gym.Wrapper` layers around the scripted environment (0, 1 = `PassThrough`, 2 = `OuterWrap(PassThrough)`) -/
+  depth : Nat := 0
+  /-- attributes that live on the wrapper layers (merged, outermost wins): `setattr(env, …)` on a wrapped environment
+  writes HERE, not into the scripted environment; `get_wrapper_attr` looks here first -/
+  shadow : List (String × Int) := []
   closed : Bool := false
   deriving DecidableEq, Repr
 
@@ -666,7 +670,8 @@ def step (s : St) (a : Int) : St × Raw Nat Rat :=
     { obs := tag, rew := e.1, terminated := e.2.1, truncated := e.2.2,
       info := [("tag", .int tag), ("k", .int n)] })
 
-def getAttr (s : St) : String → Val Nat
+/-- attribute of the scripted environment itself -/
+def innerAttr (s : St) : String → Val Nat
   | "some_attr" => .int s.someAttr
   | "n_steps" => .int s.nSteps
   | "episode" => .int s.episode
@@ -675,11 +680,24 @@ def getAttr (s : St) : String → Val Nat
   | "last_action" => .int s.lastAction
   | _ => .none
 
+/-- `env.get_wrapper_attr(name)`: the outermost layer that has the attribute, else the scripted environment -/
+def getAttr (s : St) (name : String) : Val Nat :=
+  match (if s.depth = 0 then none else s.shadow.lookup name) with
+  | some v => .int v
+  | none => innerAttr s name
+
+/-- `setattr(env, name, value)` on the object the vectorised environment holds: the outermost wrapper if there is
+one (the scripted environment underneath does not see it), else the scripted environment -/
 def setAttr (s : St) (name : String) (v : Val Nat) : St :=
-  match name, v with
-  | "some_attr", .int i => { s with someAttr := i }
-  | "n_steps", .int i => { s with nSteps := i.toNat }
-  | _, _ => s
+  if s.depth = 0 then
+    match name, v with
+    | "some_attr", .int i => { s with someAttr := i }
+    | "n_steps", .int i => { s with nSteps := i.toNat }
+    | _, _ => s
+  else
+    match v with
+    | .int i => { s with shadow := dictSet s.shadow name i }
+    | _ => s
 
 def method (s : St) (name : String) (args : List Int) : St × Val Nat :=
   match name with
@@ -689,7 +707,8 @@ def method (s : St) (name : String) (args : List Int) : St × Val Nat :=
   | "echo" => (s, .ints ((s.envId : Int) :: args))
   | _ => (s, .none)
 
-def isWrapped (s : St) (cls : String) : Bool := s.wrapped && cls == "PassThrough"
+def isWrapped (s : St) (cls : String) : Bool :=
+  (decide (1 ≤ s.depth) && cls == "PassThrough") || (decide (2 ≤ s.depth) && cls == "OuterWrap")
 
 def sem : EnvSem St Int Nat Rat :=
   { step := step, reset := reset, getAttr := getAttr, setAttr := setAttr, method := method,
